@@ -383,6 +383,36 @@ func (ch c02) Run(c *core.Ctx) {
 		c.Count("close_during_traffic_rounds", 1)
 		c.Eval(fmt.Sprintf("close during traffic %d", len(conns)), true)
 	}
+	// (g) every format code a Bind can carry outside {0,1}, as parameter and as result code, one for all and
+	// positional: whatever the server answers, a RowDescription never announces an undefined code
+	if c.Batch == 0 && c.Begin(3600000) {
+		tbl := &hs.Prog{Stmts: []*hs.Stmt{{ID: "fc", Cols: textCols(2), Params: []oid.Oid{oid.T_text}, Ops: []hs.Op{{K: "row", Vals: []any{"a", "b"}}, {K: "complete", Tag: "SELECT 1"}}}}}
+		for _, code := range []int{2, 3, 127, 128, 255, 256, 257, 0x7ffe, 0x7fff, 0x8000, 0x8001, 0x80ff, 0xc000, 0xff00, 0xfffe, 0xffff} {
+			fc := int16(uint16(code))
+			for v, b := range [][]byte{
+				pg.Bind("", "", nil, [][]byte{[]byte("x")}, []int16{fc}),
+				pg.Bind("", "", nil, [][]byte{[]byte("x")}, []int16{0, fc}),
+				pg.Bind("", "", nil, [][]byte{[]byte("x")}, []int16{fc, 1}),
+				pg.Bind("", "", []int16{fc}, [][]byte{[]byte("x")}, nil),
+				pg.Bind("", "", []int16{fc}, [][]byte{[]byte("x")}, []int16{fc}),
+			} {
+				conn := env.Dial(&hs.Sess{Default: func(string) *hs.Prog { return tbl }})
+				conn.NoLog = true
+				in := append(pg.Startup([][2]string{{"user", "u"}}), pg.Parse("", "fc", nil)...)
+				in = append(append(append(append(in, b...), pg.Describe('P', "")...), pg.Execute("", 0)...), pg.Sync()...)
+				in = append(in, pg.Query("fc")...)
+				conn.Send(append(in, pg.Terminate()...))
+				conn.CloseWrite()
+				if !conn.WaitClosed() {
+					c.Inconclusive("connection did not close (C02 format-code workload)")
+					return
+				}
+				c.Count("undefined_format_codes_sent", 1)
+				c.Eval(fmt.Sprintf("format code %#x variant %d", code, v), true)
+				strict(conn, fmt.Sprintf("Bind with format code %#x (variant %d)", code, v), map[string]any{"format_code": code, "variant": v})
+			}
+		}
+	}
 	// (f) writes interrupted half-way: the k-th transport Write of a canonical session takes half of its
 	// bytes and returns a temporary (timeout) error, for every k. Whether the server gives the connection
 	// up or completes the message, what the client has received is whole messages and, only at the very
